@@ -58,6 +58,7 @@ type Contract struct {
 	Inline    bool
 	Missing   bool
 	Split     int
+	SplitDeep bool
 	Unfold    map[string]bool
 	CaseVar   string
 	CaseVals  []string
@@ -189,7 +190,10 @@ func parseContractFile(fset *token.FileSet, f *ast.File, pkg *packages.Package) 
 				}
 			case "split":
 				cur.Split = 16
-				if n, err := strconv.Atoi(rest); err == nil {
+				if rest == "deep" {
+					cur.Split = 64
+					cur.SplitDeep = true
+				} else if n, err := strconv.Atoi(rest); err == nil {
 					cur.Split = n
 				}
 			case "cases":
